@@ -206,6 +206,14 @@ def replay(iset, memarch, nregions, inputs, ob):
         pre_bad, undo = watch_precondition(ob['label'])
     exc = None
     snap0 = module_state_snapshot()
+    taken = []
+    for nm_ in ('take_svc_exception', 'take_smc_exception', 'take_hyp_trap_exception', 'take_undef_instr_exception', 'take_data_abort_exception'):
+        def wrap(nm_=nm_, real_=getattr(cpu.registers, nm_)):
+            def f(*a):
+                taken.append(nm_)
+                return real_(*a)
+            return f
+        setattr(cpu.registers, nm_, wrap())
     try:
         try:
             cpu.emulate_cycle()
@@ -224,8 +232,46 @@ def replay(iset, memarch, nregions, inputs, ob):
     changed = {k: (init[k], final[k]) for k in final if final[k] != init[k] and not k.startswith('chg[')}
     lines.append('changed leaves: ' + ', '.join('%s %s->%s' % (k, _h(a), _h(b)) for k, (a, b) in sorted(changed.items())[:14]))
     bad = False
+    xrows = []
+    if kind in ('post', 'post.exc') and eo is not None:
+        from spec import encodings as ENC0
+        want0 = 'arm' if iset == 'arm' else ('t16' if iset == 'thumb16' else 't32')
+        xrows = [r for r in ENC0.rows_for(type(eo).__name__) if r.iset == want0 and r.match(inputs['instr']) and getattr(r, 'exc', None) is not None]
     if kind in ('safe.host', 'safe.escape'):
         bad = exc is not None and not isinstance(exc, NotImplementedError)
+    elif xrows:
+        # exception-generating instruction (SVC, SMC): which exception, and the architectural entry from the initial state
+        from spec.cpu import Cpu
+        from spec import exceptions as EXC
+        from spec import psr as PSR
+        st0 = dict(init)
+        cfgs = registry.mods().configurations.configurations.configs
+        for k in MC.CFG_BOOL + list(MC.CFG_INT):
+            st0['cfg.' + k] = cfgs.get(k)
+        oplen = 16 if iset == 'thumb16' else 32
+        r = xrows[0]
+        base = Cpu(dict(st0), 'arm' if iset == 'arm' else 'thumb', inputs['instr'], oplen)
+        f_ = r.extract(inputs['instr'])
+        want_kind = next((k_ for c_, k_ in r.exc(base, f_) if c_), None)
+        passed, cu = PSR.condition_passed('arm' if iset == 'arm' else 'thumb', inputs['instr'], oplen, init['cpsr'])
+        u_enc = bool(r.sbz_violated(inputs['instr'])) or bool(r.unpred(f_, base) if r.unpred is not None else False)
+        names = {'take_svc_exception': 'svc', 'take_smc_exception': 'smc', 'take_hyp_trap_exception': 'hyptrap', 'take_undef_instr_exception': 'undef'}
+        got_kind = names.get(taken[0]) if len(taken) == 1 else ('none' if not taken else '+'.join(taken))
+        lines.append('condition passed: %s ; the instruction specifies: %s ; real: %s' % (bool(passed), want_kind, got_kind))
+        if u_enc or cu or want_kind == 'unpred' or exc is not None:
+            lines.append('UNPREDICTABLE encoding / state or the step raised: not compared')
+        elif not passed:
+            bad = bool(taken)
+        elif got_kind != want_kind:
+            bad = True
+        else:
+            exp = dict(st0)
+            if want_kind in ('hyptrap', 'svc'):
+                exp['hsr'] = final['hsr']
+            {'svc': EXC.take_svc, 'smc': EXC.take_smc, 'hyptrap': EXC.take_hyp_trap, 'undef': EXC.take_undef_instr}[want_kind](exp)
+            diff = {k: (_h(final[k]), _h(exp[k])) for k in final if k not in STEP.SCRATCH and final[k] != exp[k]}
+            lines.append('leaf differences (real, architectural entry from the initial state): %s' % diff)
+            bad = bool(diff)
     elif kind == 'pre@callsite':
         nm = ob['label'].rsplit('.', 1)[-1]
         if nm in sc.pre_bad:
